@@ -136,7 +136,7 @@ class JsonRPCServer:
             )
         except BrokenPipeError:
             logger.error("Connection to the client is lost! Shutting down the server.")
-        except (KeyboardInterrupt, SystemExit):
+        except KeyboardInterrupt:
             pass
         finally:
             self.shutdown()
@@ -161,7 +161,7 @@ class JsonRPCServer:
             )
         except BrokenPipeError:
             logger.error("Connection to the client is lost! Shutting down the server.")
-        except (KeyboardInterrupt, SystemExit):
+        except KeyboardInterrupt:
             pass
         finally:
             self.shutdown()
